@@ -95,7 +95,7 @@ fn main() {
     if let Some(path) = &args.replay_slot {
         std::process::exit(replay_slot(&prop, path));
     }
-    if args.worker {
+    if args.worker || cfg!(miri) {
         std::process::exit(worker(&prop, &args));
     }
     std::process::exit(supervisor(&args));
